@@ -25,6 +25,22 @@ type rinst struct {
 	nuse   int
 	prev   map[string]string // probe key -> compact reply of the previous battery
 	hcount map[string]int
+	// (pattern, parameters) pairs for which a strict URL was built once: asked again in every later battery, also when the
+	// route has been removed or cleaned meanwhile (a strict URL of a dead route must fail)
+	urlMemo     []Op
+	urlMemoSeen map[string]bool
+}
+
+func (in *rinst) rememberURL(pat string, params map[string]string) {
+	k := pat + "|" + jmap(params)
+	if in.urlMemoSeen == nil {
+		in.urlMemoSeen = map[string]bool{}
+	}
+	if in.urlMemoSeen[k] || len(in.urlMemo) >= 24 {
+		return
+	}
+	in.urlMemoSeen[k] = true
+	in.urlMemo = append(in.urlMemo, Op{Op: "url", Pat: pat, Strict: true, Params: SMap(params)})
 }
 
 type runner struct {
@@ -339,7 +355,14 @@ func (rn *runner) battery(in, mir *rinst, silent bool, frame bool) {
 			rn.stats.exec++
 			pk := m + " " + p.Path
 			newPrev[pk] = compactReply(o)
+			isRT := rn.pool.RT && o.kind == "route" && o.panicKind == "none" && (m == "GET" || m == "POST")
+			if isRT {
+				in.rememberURL(o.pat, o.params)
+			}
 			if silent {
+				if isRT { // the silent baseline also builds the URLs (whatever URL building caches is primed before the removal)
+					in.doURL(&Op{Op: "url", Pat: o.pat, Strict: true, Params: SMap(o.params)}, false)
+				}
 				continue
 			}
 			prev, hasPrev := in.prev[pk]
@@ -378,7 +401,7 @@ func (rn *runner) battery(in, mir *rinst, silent bool, frame bool) {
 			if fresh {
 				rn.emit(line)
 			}
-			if rn.pool.RT && o.kind == "route" && o.panicKind == "none" && (m == "GET" || m == "POST") {
+			if isRT {
 				for _, strict := range []bool{false, true} {
 					rn.urlEvent(in, nil, &Op{Op: "url", Pat: o.pat, Strict: strict, Params: SMap(o.params)}, key, p.Path, true)
 				}
@@ -388,6 +411,9 @@ func (rn *runner) battery(in, mir *rinst, silent bool, frame bool) {
 	in.prev = newPrev
 	if silent {
 		return
+	}
+	for i := range in.urlMemo {
+		rn.urlEvent(in, nil, &in.urlMemo[i], key, "", false)
 	}
 	for i := range rn.pool.URLs {
 		rn.urlEvent(in, mir, &rn.pool.URLs[i], key, "", false)
